@@ -21,7 +21,7 @@
 // load of go.h (m_closed, the two waiter counters) - the places where the buffered protocol reads shared state.  The hook
 // never changes a value; an acquire load becomes a load with a run-time order argument (not weaker).
 //
-// usage: h_gochan --prim dir|rand|gate --execs N --seed S --vcpus V --threads K --ops M --out file [--masks all|ends]
+// usage: h_gochan --prim dir|rand|gate --execs N --seed S --vcpus V --threads K --ops M --out file [--masks all|cap0all|ends]
 #include "vt_photon.h"
 #include <photon/thread/thread.h>
 #include <photon/thread/thread11.h>
@@ -313,7 +313,7 @@ static bool exec_dir(int ex, int cap, const std::vector<int>& seq, unsigned mask
     }
     return finish_exec(ch, ws, pg, true, false, "dir", false);
 }
-static bool run_dir(uint64_t limit, bool all_masks) {
+static bool run_dir(uint64_t limit, int all_masks) {    // all_masks: 0 = {none, all} only, 1 = every mask for capacity 0, 2 = every mask
     // enumerate: capacity x sequence x mask; with a limit, a seeded regular sample of the enumeration
     std::vector<std::vector<int>> seqs;
     for (int len = 1; len <= 4; len++) {
@@ -331,7 +331,7 @@ static bool run_dir(uint64_t limit, bool all_masks) {
         for (auto& s : seqs) {
             unsigned nm = 1u << (s.size() - 1);
             for (unsigned m = 0; m < nm; m++) {
-                if (!all_masks && m != 0 && m != nm - 1) continue;
+                if (!(all_masks == 2 || (all_masks == 1 && cap == 0)) && m != 0 && m != nm - 1) continue;
                 cases.push_back({cap, &s, m});
             }
         }
@@ -455,7 +455,7 @@ int main(int argc, char** argv) {
     vtp::Watchdog wd; wd.start(20, prim.c_str());
     vt::Rng r(g_seed * 1000003 + 9);
     int rc = 0;
-    if (prim == "dir") { if (!run_dir((uint64_t)g_execs, masks == "all")) rc = 4; }
+    if (prim == "dir") { if (!run_dir((uint64_t)g_execs, masks == "all" ? 2 : masks == "cap0all" ? 1 : 0)) rc = 4; }
     else for (int ex = 0; ex < g_execs; ex++) {
         bool ok = prim == "gate" ? exec_gate(ex, ex % 5) : exec_rand(ex, r);
         if (!ok) { rc = 4; break; }
